@@ -1406,6 +1406,13 @@ func (fr *Frame) havocLoop(l *loop, st *State) []string {
 					dk, vk := c.regMap(c.sortOf(mt.Key()), c.sortOf(mt.Elem()))
 					heaps[dk], heaps[vk] = true, true
 				}
+			case *ssa.Next:
+				// the ghost set of visited keys of a range over a map grows in the loop
+				if rng, ok := x.Iter.(*ssa.Range); ok {
+					if key, has := fr.visitedKey(rng); has && st.has(key) {
+						cells[key] = c.keys[key].sort
+					}
+				}
 			case ssa.CallInstruction:
 				com := x.Common()
 				if bi, ok := com.Value.(*ssa.Builtin); ok {
@@ -1487,7 +1494,9 @@ func (fr *Frame) havocLoop(l *loop, st *State) []string {
 	for _, k := range hk {
 		st.set(k, c.sc.fresh("lh_"+k, c.keys[k].sort))
 	}
-	c.heapWritten(st)
+	if len(hk) > 0 { // a loop that writes no heap cell leaves heap-reading pure applications comparable
+		c.heapWritten(st)
+	}
 	return hk
 }
 
